@@ -83,6 +83,9 @@ type Run struct {
 type watchEntry struct {
 	start atomic.Int64
 	desc  atomic.Value
+	// watchdog-private: the call observed at the previous tick and for how many undisturbed ticks it has been open
+	seen  int64
+	ticks int
 }
 
 func NewRun(property, tier string) *Run {
@@ -222,13 +225,27 @@ func (r *Run) progress() int64 {
 	return r.Evaluations.Load() + r.States.Load() + r.Transitions.Load() + r.Traces.Load()
 }
 
+// The watchdog measures time in its own undisturbed TICKS, not in wall-clock time: a tick is a 2-second sleep that
+// really took about 2 seconds. When the whole process (or the whole sandbox: it is frozen while a snapshot is taken)
+// stands still, wall-clock time jumps but no tick is counted, so a call that was merely interrupted is not taken for
+// a call that does not return; and on a machine so overloaded that the watchdog itself is scheduled late, the late
+// ticks are not counted either. (This replaced a wall-clock limit that raised a false alarm - Appendix A.)
+const watchTick = 2 * time.Second
+
 func (r *Run) watchdog() {
-	lastProgress, lastChange := r.progress(), time.Now()
+	lastProgress, idleTicks := r.progress(), 0
+	hangTicks := int(HangLimit / watchTick)
+	noProgressTicks := int(NoProgressLimit / watchTick)
 	for {
-		time.Sleep(2 * time.Second)
+		t0 := time.Now()
+		time.Sleep(watchTick)
+		disturbed := time.Since(t0) > 2*watchTick
 		if p := r.progress(); p != lastProgress {
-			lastProgress, lastChange = p, time.Now()
-		} else if !r.noProgressOff.Load() && time.Since(lastChange) > NoProgressLimit {
+			lastProgress, idleTicks = p, 0
+		} else if !disturbed {
+			idleTicks++
+		}
+		if !r.noProgressOff.Load() && idleTicks > noProgressTicks {
 			buf := make([]byte, 1<<20)
 			buf = buf[:runtime.Stack(buf, true)]
 			os.MkdirAll(filepath.Join(Root, "replays"), 0o755)
@@ -250,11 +267,17 @@ func (r *Run) watchdog() {
 				Case{Kind: "hang", Args: map[string]string{"desc": site}})
 			os.Exit(r.Finish())
 		}
-		now := time.Now().UnixNano()
 		r.watch.Range(func(k, v any) bool {
 			w := v.(*watchEntry)
 			s := w.start.Load()
-			if s != 0 && time.Duration(now-s) > HangLimit {
+			if s == 0 || s != w.seen {
+				w.seen, w.ticks = s, 0
+				return true
+			}
+			if !disturbed {
+				w.ticks++
+			}
+			if w.ticks > hangTicks {
 				d := "?"
 				if f, ok := w.desc.Load().(func() string); ok && f != nil {
 					d = f()
